@@ -10,6 +10,8 @@
 
 use crate::rng::Rng;
 use rsdns::clients::{ClientConfig, EDns, ProtocolStrategy, Recursion};
+use rsdns::records::data::*;
+use crate::with_rtype;
 use std::net::{Ipv4Addr, Ipv6Addr, SocketAddr, SocketAddrV4, SocketAddrV6};
 use std::time::Duration;
 
@@ -73,6 +75,14 @@ fn apply(c: ClientConfig, op: &str) -> Option<ClientConfig> {
         }),
         _ => return None,
     })
+}
+
+/// `rtype <NAME>` -> `ok <code>`: the TYPE a typed query (`query_rrset::<D>`) asks for and filters by
+pub fn eval_rtype(toks: &[&str]) -> String {
+    if toks.len() != 2 {
+        return "bad-request".into();
+    }
+    with_rtype!(toks[1], D, format!("ok {}", <D as RData>::RTYPE.value()), "bad-request".to_string())
 }
 
 pub fn eval_cfg(toks: &[&str]) -> String {
@@ -144,7 +154,12 @@ fn gen_addr(r: &mut Rng) -> String {
 
 /// a constructor followed by 0..9 builder calls; every setter is called with boundary and ordinary
 /// values, name-server changes of both families are mixed with everything else
-pub fn gen_cfg(r: &mut Rng, _i: u64) -> String {
+pub fn gen_cfg(r: &mut Rng, i: u64) -> String {
+    const NAMES: [&str; 17] = ["A", "NS", "MD", "MF", "CNAME", "SOA", "MB", "MG", "MR", "NULL", "WKS", "PTR", "HINFO", "MINFO", "MX", "TXT", "AAAA"];
+    if i < 17 {
+        // the first requests of every run: all 17 record-data types
+        return format!("rtype {}", NAMES[i as usize]);
+    }
     let mut toks: Vec<String> = vec!["cfg".into()];
     toks.push(if r.chance(1, 3) { "new".into() } else { format!("with:{}", gen_addr(r)) });
     let n = r.below(10);
